@@ -326,6 +326,7 @@ def audit(prop):
 def run_check(prop_cls, tier, seed, replay=None):
     t0 = time.time()
     setup_repo_path()
+    random.seed(seed)          # the implementation may draw from the global PRNG (rexpy sampling)
     prop = prop_cls(tier, seed)
     pid = prop.pid
     os.makedirs(EVIDENCE_DIR, exist_ok=True)
